@@ -132,7 +132,12 @@ Anns_str == <<HV("3")>>
 \* mrk: scalar contents next to the one-byte markers of the hash-cons key (Base._arg_serialize: None = 0x0f, True = 0x1f,
 \* False = 0x2e): a field that is None / True / False on one node and 15 / 31 / 46 on another node over the same
 \* expression; 1 and 0 because True == 1 and False == 0 in Python
+E4  == <<"BVV", "ESI4", <<>>, <<>>, <<>>, 4>>      \* claripy.ESI(4) = BVV(None, 4): the empty strided interval, value slot None
+B15 == KBVV(<<1, 1, 1, 1>>)                    \* BVV(15, 4): value slot 15
 Keys_mrk == <<X, Add(X, Y)>>
+\* esi: the same marker in a VALUE slot: the empty strided interval next to the constant 15 of the same width
+Keys_esi == <<E4, B15, Add(X, B15)>>
+Anns_esi == <<HV("3")>>
 Anns_mrk == <<HV("None"), HV("15"), HV("True"), HV("31"), HV("False"), HV("46"), HV("1"), HV("0")>>
 None == <<>>
 =============================================================================
